@@ -290,6 +290,11 @@ func runC16PayloadOnce(c *C16PayloadCase) error {
 	if err != nil {
 		return fmt.Errorf("leader SELECT * FROM ta after the history: %v", err)
 	}
+	if res.Stats != nil && (len(res.Stats.MissingPartitions) > 0 || res.Stats.NumSuccessfulPartitions < res.Stats.NumPartitions) {
+		// a partition had no registered harness handler at that moment: the rows
+		// say nothing about ingestion
+		return fmt.Errorf("%w: leader query incomplete: %+v", h.ErrInconclusive, *res.Stats)
+	}
 	return checkValidRows(res, want, "cluster")
 }
 
